@@ -11,6 +11,10 @@ lookup    directory trees in which x.h is present/absent in each of {cwd, includ
           line) publishes read_<loc> under #ifdef: the database shows WHICH copy was read and
           WHETHER it was treated as the user's own.  parse_file repeats the "which copy" part.
           Oracle: the rule of the property, transcribed (expected_lookup).
+srcdir    -srcdir at EVERY position among the -I/-S arguments x relative and absolute spellings
+          of all of them x x.h present/absent in {source dir, I1, S1, and the decoys
+          <srcdir>/<relative I1>, <srcdir>/<relative S1>} x 2 forms: -srcdir only says where the
+          source files are; -I/-S are resolved against the start directory wherever it stands.
 nested    the includer of x.h is itself reached through an #include: chains of 2 and 3 files, the
           middle file found through {its includer's directory, -I, -S, the working directory}
           by a reference with or without a directory component, x.h present/absent in {cwd,
@@ -55,7 +59,10 @@ from vf.core import Check, HarnessError, pmap, pmap_proc, run_main
 PID = "C17"
 
 # ----------------------------------------------------------------------------- lookup
-LOC_DIR = {"cwd": ".", "sub": "sub", "I1": "I1", "I2": "I2", "S1": "S1", "S2": "S2"}
+LOC_DIR = {"cwd": ".", "sub": "sub", "I1": "I1", "I2": "I2", "S1": "S1", "S2": "S2",
+           # decoys for the srcdir family: where "t/I1" would lead if it were resolved against the
+           # source directory t instead of the start directory
+           "DI1": "t/I1", "DS1": "t/S1"}
 
 
 def xh_text(loc, structs=True):
@@ -259,6 +266,87 @@ def lookup_family(ck, b, thorough):
                             {"case": c, "expected": e, "observed": "; ".join(bad), "run": o},
                             confirm=lambda c=c: bool(judge_lookup(c, run_lookup(
                                 b, os.path.join(rootdir, "+".join(c["mask"]) or "none"), outdir, c, "confirm"))[1]))
+    return len(cases)
+
+
+# ----------------------------------------------------------------------------- srcdir
+# -srcdir names the directory the SOURCE FILE names are relative to (help text); -I/-S
+# directories are made absolute when parsed, i.e. against the START directory, wherever -srcdir
+# stands among them.
+def srcdir_key(c):
+    return "srcdir/%s/%s/%s/[%s]" % (c["form"], c["spell"], "+".join(c["mask"]) or "none",
+                                    ",".join("SRCDIR" if a == "SRCDIR" else "%s:%s" % tuple(a) for a in c["seq"]))
+
+
+def run_srcdir(b, treeroot, outdir, c, tag):
+    """start directory = treeroot, source directory = treeroot/t"""
+    t = os.path.join(treeroot, "t")
+    cmd = [b["interrogate"], "-od", os.path.join(outdir, "%s.in" % tag), "-module", "m", "-library", "l", "-v"]
+    for a in c["seq"]:
+        if a == "SRCDIR":
+            cmd += ["-srcdir", "t" if c["spell"] == "rel" else t]
+        else:
+            fl, d = a
+            cmd += ["-" + fl, ("t/" + LOC_DIR[d]) if c["spell"] == "rel" else os.path.join(t, LOC_DIR[d])]
+    cmd.append("m%s.h" % c["form"])
+    r = tools.run(cmd, cwd=treeroot, b=b)
+    od = os.path.join(outdir, "%s.in" % tag)
+    try:
+        text = open(od).read()
+        os.unlink(od)
+    except OSError:
+        text = ""
+    read, own = observe_names(text)
+    return {"rc": r.rc, "read": read, "own": own, "anchor": "anchor" in text,
+            "warn": "Cannot find" in r.err, "stderr": r.err[-600:], "cmd": cmd, "cwd": treeroot}
+
+
+def srcdir_lookup_case(c):
+    """the same case as the lookup oracle sees it: -srcdir only moves the working directory"""
+    return {"mask": c["mask"], "form": c["form"], "noangles": False, "includer": "cwd",
+            "args": [a for a in c["seq"] if a != "SRCDIR"]}
+
+
+def _srcdir_chunk(job):
+    binfo, rootdir, outdir, cases, base = job
+    return [(c, run_srcdir(binfo, os.path.join(rootdir, "+".join(c["mask"]) or "none"), outdir, c, "s%d_%d" % (base, i)))
+            for i, c in enumerate(cases)]
+
+
+SRCDIR_LOCS = ["cwd", "I1", "S1", "DI1", "DS1"]
+
+
+def srcdir_family(ck, b, thorough):
+    rootdir = ck.scratch("srcdir")
+    outdir = ck.scratch("srcdir-out")
+    masks = []
+    for k in range(len(SRCDIR_LOCS) + 1):
+        for m in itertools.combinations(SRCDIR_LOCS, k):
+            masks.append(list(m))
+            make_lookup_tree(os.path.join(rootdir, "+".join(m) or "none"), SRCDIR_LOCS, m)
+    seqs = []
+    for args in arrangements([("I", "I1"), ("S", "S1")]):
+        for pos in range(len(args) + 1):
+            seqs.append([list(a) for a in args[:pos]] + ["SRCDIR"] + [list(a) for a in args[pos:]])
+    cases = [{"fam": "srcdir", "form": form, "spell": spell, "mask": m, "seq": seq}
+             for form in "qa" for spell in ("rel", "abs") for seq in seqs for m in masks]
+    chunk = 150
+    jobs = [(b, rootdir, outdir, cases[i:i + chunk], i) for i in range(0, len(cases), chunk)]
+    for res in pmap_proc(_srcdir_chunk, jobs):
+        for c, o in res:
+            lc = srcdir_lookup_case(c)
+            e, bad = judge_lookup(dict(lc, tool="interrogate"), o)
+            key = srcdir_key(c)
+            # non-trivial: -srcdir is followed by at least one relative -I/-S
+            ck.note(key, nontrivial=c["spell"] == "rel" and c["seq"][-1] != "SRCDIR",
+                    outcome="srcdir:%s:%s" % (e["how"], "own" if e["own"] else "notown"), family="srcdir",
+                    sample={"case": c, "expected": e, "observed": {k: o[k] for k in ("rc", "read", "own", "warn")}})
+            if bad:
+                def confirm(c=c, lc=lc):
+                    o2 = run_srcdir(b, os.path.join(rootdir, "+".join(c["mask"]) or "none"), outdir, c, "confirm")
+                    return bool(judge_lookup(dict(lc, tool="interrogate"), o2)[1])
+                ck.fail(key, "; ".join(bad), {"case": c, "expected": e, "observed": "; ".join(bad), "run": o},
+                        confirm=confirm)
     return len(cases)
 
 
@@ -1100,6 +1188,12 @@ def replay(ck, b):
         o = run_lookup(b, root, out, c, "replay")
         e, bad = judge_lookup(c, o)
         print("expected:", e)
+    elif fam == "srcdir":
+        root = ck.scratch("replay-tree")
+        make_lookup_tree(root, SRCDIR_LOCS, c["mask"])
+        o = run_srcdir(b, root, out, c, "replay")
+        e, bad = judge_lookup(dict(srcdir_lookup_case(c), tool="interrogate"), o)
+        print("expected:", e)
     elif fam == "nested":
         root = ck.scratch("replay-tree")
         L = make_nested_tree(root, c["reach"], c["dirref"], c["chain"], c["mask"])
@@ -1155,9 +1249,9 @@ def main():
     if ck.replay:
         return replay(ck, b)
     fams = {"lookup": lookup_family, "explicit": explicit_family, "once": once_family,
-            "dirspell": dirspell_family, "norm": norm_family, "nested": nested_family, "routes": routes_family}
+            "dirspell": dirspell_family, "norm": norm_family, "nested": nested_family, "routes": routes_family, "srcdir": srcdir_family}
     counts = {}
-    for name in ("norm", "explicit", "once", "routes", "dirspell", "nested", "lookup"):
+    for name in ("norm", "explicit", "once", "routes", "dirspell", "srcdir", "nested", "lookup"):
         if ck.only and name not in ck.only:
             continue
         if ck.expired(reserve=20):
@@ -1167,14 +1261,14 @@ def main():
     ck.extra["family_sizes"] = counts
     return ck.finish(
         rule="one case = one execution of interrogate / parse_file in a constructed directory tree "
-             "(lookup, nested, explicit, once, routes, dirspell) or one path string evaluated by fnorm (norm). "
+             "(lookup, srcdir, nested, explicit, once, routes, dirspell) or one path string evaluated by fnorm (norm). "
              "Non-trivial: lookup = the number of candidate places holding a copy of x.h is not "
              "exactly one (order, not presence, decides; or nothing may be found); explicit / "
              "dirspell = a spelling other than the plain one; once = two different spellings; "
              "norm = the path resolves and standardize() changes the string",
         exhaustive=True,
         bound="lookup: 2^%d trees x all arrangements of all subsets of the -I/-S arguments x 2 forms "
-              "x -noangles x %s includers%s; nested: 4 ways to reach the includer x reference with/without directory x 3 chains x all presence masks over <=5 places x 2 forms; explicit: 2 orders x 8 resolution places x 6-7 include spellings x 8 command-line spellings x 3 protections; once: all ordered pairs of 7 spellings x 3 modes x 2 protections + 8 single spellings; "
+              "x -noangles x %s includers%s; srcdir: -srcdir at every position in every arrangement of {-I I1, -S S1} x rel/abs x 2^5 trees x 2 forms; nested: 4 ways to reach the includer x reference with/without directory x 3 chains x all presence masks over <=5 places x 2 forms; explicit: 2 orders x 8 resolution places x 6-7 include spellings x 8 command-line spellings x 3 protections; once: all ordered pairs of 7 spellings x 3 modes x 2 protections + 8 single spellings; "
               "norm: all strings of <= %d components over 7 symbols x 3 prefixes x trailing slash"
               % (6 if thorough else 5, 3 if thorough else 2, " x -srcdir" if thorough else "",
                  5 if thorough else 4),
